@@ -42,4 +42,15 @@ def cfg : Cfg where
   tagIntermediate := Facts.C17.tagIntermediate
   tagPadded := Facts.C17.tagPadded
 
+/-- A connection's read loop: `Read` is called again after every delivered frame (next expected
+seqno, rest of the stream) until a read fails; `fuel` = number of `Read` calls observed.  Unlike
+`Codec.decAll` it keeps every `Res` (allocation trace and panic outcome) of the session. -/
+def readSession (c : Cfg) (crc : Bytes → Nat) (k : Kind) : Nat → Int → Bytes → List Res
+  | 0, _, _ => []
+  | fuel + 1, seq, s =>
+    read c crc k seq s ::
+      match (read c crc k seq s).out with
+      | .ok _ rest => readSession c crc k fuel (seq + 1) rest
+      | _ => []
+
 end TdModel.C17
